@@ -554,6 +554,7 @@ func (x *Exec) cutLoop(s *State, ord int, label string, spec *LoopSpec, pos toke
 	frameNames := x.loopFrameNames(ws, s)
 	x.loopFrameOblige(s, frameNames, ord, "entry", x.pos(pos))
 	h := s.clone()
+	h.calls, h.callsOpen = nil, true // an unknown number of iterations may have called out of the module
 	x.havocVars(h, ws)
 	x.loopFrameAssume(h, frameNames)
 	if spec != nil {
